@@ -2,6 +2,7 @@ mod c04;
 mod c05;
 mod c15;
 mod c17;
+mod c19;
 mod case;
 mod exec_float;
 mod exec_int;
@@ -43,6 +44,7 @@ fn gen_case(prop: &str, seed: u64, index: u64) -> case::Case {
         "C17" => c17::gen_case(seed, index),
         "C04" => c04::gen_case(seed, index),
         "C05" => c05::gen_case(seed, index),
+        "C19" => c19::gen_case(seed, index),
         "C15" => c15::gen_case(seed, index),
         _ => die(&format!("unknown property {prop}")),
     }
@@ -186,6 +188,45 @@ fn main() {
             j["violations"] = nviol.into();
             j["soft_hits"] = soft_hits.into();
             j["extra"] = ctx.extra();
+            writeln!(lock, "STATS {}", j).unwrap();
+        }
+        "transcript" => {
+            // C19 (a): per-run transcript hashes (or the full text of one run / one case file)
+            self_test();
+            let seed = arg_u64(&args, "--seed", 20261002);
+            let from = arg_u64(&args, "--from", 0);
+            let to = arg_u64(&args, "--to", 100);
+            let full = args.iter().any(|a| a == "--full");
+            let mut stats = run::Stats::new();
+            let mut lock = out.lock();
+            let file_case = arg(&args, "--file").map(|file| {
+                let text = std::fs::read_to_string(file).unwrap_or_else(|e| die(&format!("{file}: {e}")));
+                let v: serde_json::Value = serde_json::from_str(&text).unwrap_or_else(|e| die(&format!("{file}: {e}")));
+                case::Case::from_json(&v).unwrap_or_else(|e| die(&e))
+            });
+            let range = if file_case.is_some() { 0..1 } else { from..to };
+            for i in range {
+                run::CUR_RUN.store(i, std::sync::atomic::Ordering::Relaxed);
+                run::watchdog(120);
+                let c = match &file_case {
+                    Some(c) => c.clone(),
+                    None => c19::gen_case(seed, i),
+                };
+                let (o, t) = c19::run_transcript(&c, &mut stats, full);
+                if let Some(e) = o.harness_error {
+                    writeln!(lock, "HARNESS run={} error={}", i, e).unwrap();
+                    lock.flush().unwrap();
+                    std::process::exit(2);
+                }
+                writeln!(lock, "T {} {:016x} {}", i, t.dig.0, c.ops.len()).unwrap();
+                if full {
+                    for l in &t.lines {
+                        writeln!(lock, "L {}", l).unwrap();
+                    }
+                }
+            }
+            let mut j = stats.to_json();
+            j["executions"] = stats.runs.into();
             writeln!(lock, "STATS {}", j).unwrap();
         }
         "exec" => {
